@@ -58,7 +58,7 @@ class VmTools:
                                stdout=subprocess.PIPE, stderr=subprocess.PIPE, timeout=timeout)
         except subprocess.TimeoutExpired:
             return {"module": "timeout", "verify": "timeout", "lockstep": "timeout", "witness": "", "maxdepth": {}}
-        res = {"module": "", "verify": "", "lockstep": "", "witness": "", "maxdepth": {}, "stderr": p.stderr.decode(errors="replace")[-500:]}
+        res = {"module": "", "verify": "", "refs": "", "lockstep": "", "witness": "", "maxdepth": {}, "stderr": p.stderr.decode(errors="replace")[-500:]}
         for l in p.stdout.decode(errors="replace").splitlines():
             if l.startswith("MODULE"):
                 res["module"] = l
@@ -68,6 +68,8 @@ class VmTools:
                 res["lockstep"] = l
             elif l.startswith("WITNESS"):
                 res["witness"] = l
+            elif l.startswith("REFS"):
+                res["refs"] = l
             elif l.startswith("MAXDEPTH"):
                 m = re.match(r"MAXDEPTH f=(\d+) d=(\d+)", l)
                 if m:
